@@ -345,4 +345,17 @@ inductive PyOneMany (α : Type) where
   | many (xs : List α)
 deriving Repr, Inhabited
 
+/-! ## wave 7: a Python `set` as a duplicate-free list (first occurrences, in order) -/
+
+def pyDedup {α : Type} [BEq α] : List α → List α
+  | [] => []
+  | x :: xs => x :: (pyDedup xs).filter (fun y => !(y == x))
+
+/-- `s.pop()`: an ARBITRARY element; only the one-element set is modelled (anything else ends in `fuel`, which is no
+    Python exception) -/
+def setPopOnly {α : Type} (s : List α) : Py α :=
+  match s with
+  | [x] => .ok x
+  | _ => .error .fuel
+
 end ICal.PyRT
